@@ -15,6 +15,7 @@
 //   --mode tcp   end to end: real TcpEngine + raw loopback peer that sends data and FIN back to back.
 //   --mode multi several Sync sessions on one Transport with a tiny syncBufferGcThreshold closing with undrained
 //                tails while unrelated sessions open/close (tombstone GC), late drains with small buffers.
+//   --mode cancel reader in receiveSyncCancellable, token.cancel() placed exactly around scripted arrivals
 //   --mode probe second concurrent reader must be rejected loudly (Cancelled), not served.
 #define VF_SHIM_CONDVAR
 #include "shim/shims.hpp"
@@ -202,6 +203,7 @@ static void runConc(uint64_t seed, uint64_t idx, Totals &T, bool isolated)
       vf::Rng r(readerSeed);
       ready++;
       uint32_t calls = 0; int afterPc = 0, ovStreak = 0;
+      std::vector<std::unique_ptr<iora::network::CancellationToken>> tokens;
       while (!H.stop.load() && calls < maxCalls)
       {
         uint32_t len = genLen(r, lenProfile, H.spec.total);
@@ -211,7 +213,15 @@ static void runConc(uint64_t seed, uint64_t idx, Totals &T, bool isolated)
         else if (toProfile == 2) to = k < 3 ? 0 : k < 6 ? 1 : H.spec.longTimeoutMs;
         else if (toProfile == 3) to = k < 1 ? 0 : k < 2 ? 1 : H.spec.longTimeoutMs;
         if (to == H.spec.longTimeoutMs && (H.closeSeen.load() || afterPc)) to = int(r.below(2));
-        int c = doRecv(H, len, to);
+        int c;
+        if (to == H.spec.longTimeoutMs && r.chance(0.3))
+        {
+          tokens.emplace_back(new iora::network::CancellationToken());
+          int id = int(tokens.size());
+          if (r.chance(0.15)) { logCancel(id); tokens.back()->cancel(); } // pre-cancelled: must return Cancelled, take nothing
+          c = doRecv(H, len, to, tokens.back().get(), id);
+        }
+        else c = doRecv(H, len, to);
         calls++;
         if (c == int(TransportError::PeerClosed)) { if (++afterPc > 2) break; }
         else if (c == int(TransportError::BufferOverflow)) { if (++ovStreak > 3) vf::sleepMs(0.2); }
@@ -467,6 +477,121 @@ static void runProbe(uint64_t seed, uint64_t idx)
   H.tr.reset();
 }
 
+// ================================================================================ cancellable receive
+// The reader sits in receiveSyncCancellable (100 ms receiveSync slices inside); the director places
+// token.cancel() and the scripted arrivals around each other exactly: cancel then an arrival within the
+// same slice, arrival then cancel, cancel then nothing, cancel at a seeded offset, pre-cancelled token,
+// no cancel. One fact judges it: a call that returns an error returned no bytes, so every byte of the
+// stream must still come out of some ok() result, once, in order.
+struct CancelSlot { iora::network::CancellationToken *tok = nullptr; int id = 0; };
+
+static void runCancel(uint64_t seed, uint64_t idx, Totals &T)
+{
+  vf::Rng rng(seed, idx * 8 + 2);
+  auto Hp = std::make_unique<Hist>();
+  Hist &H = *Hp;
+  Spec &S = H.spec;
+  S.kind = "cancel"; S.seed = seed; S.idx = idx;
+  std::vector<uint32_t> lens;
+  uint32_t n = uint32_t(rng.range(2, 5));
+  for (uint32_t i = 0; i < n; i++) lens.push_back(rng.chance(0.5) ? uint32_t(rng.range(1, 16)) : uint32_t(rng.range(17, 300)));
+  S.layout(lens);
+  S.maxBuf = 1u << 20;
+  int lenProfile = rng.chance(0.5) ? 2 : (rng.chance(0.5) ? 4 : 3);
+  std::vector<int> kinds;
+  std::ostringstream d;
+  d << "kinds=";
+  for (uint32_t i = 0; i < n; i++)
+  {
+    int b = int(rng.below(20));
+    int k = b < 9 ? 0 : b < 12 ? 1 : b < 14 ? 2 : b < 17 ? 3 : 4; // 0 cancel->arrival 1 arrival->cancel 2 cancel->nothing 3 no cancel 4 cancel at offset
+    kinds.push_back(k);
+    d << "ABCDE"[k];
+  }
+  d << " (A cancel then arrival in the slice, B arrival then cancel, C cancel then nothing, D no cancel, E cancel at a seeded offset) lenProfile=" << lenProfile;
+  S.desc = d.str();
+  bindThread(H, T_DIRECTOR);
+  exemptFromCondvarShim(true);
+  armShim(rng, seed * 104729 + idx);
+  if (!setup(H, rng.chance(0.5))) { vf::out().inconclusive("C03 setup failed (scripted engine)"); disarmShim(); return; }
+  doMode(H, M_SYNC);
+
+  std::atomic<CancelSlot *> slot{nullptr};
+  std::atomic<int> returned{0}; // id of the last call that has returned
+  uint64_t readerSeed = rng.next();
+  std::thread reader([&H, &slot, &returned, readerSeed, lenProfile] {
+    bindThread(H, T_READER);
+    vf::Rng r(readerSeed);
+    std::vector<std::unique_ptr<iora::network::CancellationToken>> tokens;
+    std::vector<std::unique_ptr<CancelSlot>> slots;
+    int afterPc = 0;
+    for (int calls = 0; calls < 4000 && !H.stop.load(); calls++)
+    {
+      tokens.emplace_back(new iora::network::CancellationToken());
+      slots.emplace_back(new CancelSlot{tokens.back().get(), int(tokens.size())});
+      int id = slots.back()->id;
+      uint32_t len = genLen(r, lenProfile, H.spec.total);
+      int to = H.closeSeen.load() ? 150 : int(r.range(400, 1500));
+      if (r.chance(0.06)) { logCancel(id); tokens.back()->cancel(); } // pre-cancelled
+      slot.store(slots.back().get());
+      int c = doRecv(H, len, to, tokens.back().get(), id);
+      returned.store(id);
+      if (c == int(TransportError::PeerClosed) && ++afterPc >= 1) break;
+    }
+    slot.store(nullptr);
+  });
+  Hist *hp = &H;
+  auto liveCall = [&]() -> CancelSlot * { CancelSlot *cs = slot.load(); return cs && returned.load() < cs->id ? cs : nullptr; };
+  auto cancelNow = [&](CancelSlot *cs) { logCancel(cs->id); cs->tok->cancel(); };
+  bool stuck = false;
+  for (uint32_t k = 0; k < n && !stuck; k++)
+  {
+    int kind = kinds[k];
+    CancelSlot *cs = nullptr;
+    if (kind != 3)
+    {
+      if (!waitFor([&] { return (cs = liveCall()) != nullptr; })) { stuck = true; break; }
+    }
+    switch (kind)
+    {
+    case 0:
+      vf::sleepMs(0.3 + double(rng.below(2700)) / 1000.0); // let the reader park in its slice
+      cancelNow(cs);
+      { int b = int(rng.below(3)); if (b == 1) vf::sleepMs(double(rng.below(5000)) / 1000.0); else if (b == 2) vf::sleepMs(double(rng.below(60))); }
+      break;
+    case 1: break;
+    case 2:
+      vf::sleepMs(0.3 + double(rng.below(2000)) / 1000.0);
+      cancelNow(cs);
+      { int id = cs->id; if (!waitFor([&] { return returned.load() >= id; })) stuck = true; }
+      break;
+    case 4:
+      vf::sleepMs(double(rng.below(150)));
+      cancelNow(cs);
+      vf::sleepMs(double(rng.below(30)));
+      break;
+    }
+    H.ctl->postWait([hp, k] { ioDeliver(*hp, k); });
+    if (kind == 1) cancelNow(cs);
+    if (rng.chance(0.3)) vf::sleepMs(double(rng.below(3000)) / 1000.0);
+  }
+  if (stuck) stoppedAt(idx, "cancellable reader never entered / left a call");
+  H.ctl->postWait([hp] { ioClose(*hp, false); });
+  {
+    std::atomic<bool> joined{false};
+    std::thread w([&] { if (!waitFor([&] { return joined.load(); }, 120ull * 1000000000ull)) stoppedAt(idx, "cancellable reader did not finish after the close"); });
+    reader.join();
+    joined = true;
+    w.join();
+  }
+  H.stop = true;
+  vf::Rng lr(rng.next());
+  lateDrain(H, lr);
+  disarmShim();
+  judge(H, T, false);
+  H.tr.reset();
+}
+
 // ================================================================================ multi-session
 // Several Sync-mode sessions on ONE Transport with a small syncBufferGcThreshold, closing in a seeded
 // order with undrained bytes buffered, unrelated sessions opening/closing in between (each close runs
@@ -666,6 +791,7 @@ int main(int argc, char **argv)
     else if (mode == "seq") runSeq(seed, i, T);
     else if (mode == "exh") { if (i < exhSpace().size()) runExh(i, T); }
     else if (mode == "probe") runProbe(seed, i);
+    else if (mode == "cancel") runCancel(seed, i, T);
     else if (mode == "multi") { uint64_t be = a.u("big-every", 0); runMulti(seed, i, T, be && i % be == 0); }
     else if (mode == "tcp") runTcp(seed, i, from, count);
     else { fprintf(stderr, "unknown mode\n"); return 3; }
